@@ -506,6 +506,16 @@ impl Compiler<'_> {
             mangled_name,
         );
 
+        #[cfg(capy_verif)]
+        if self.verbosity.should_show(is_mod) {
+            for (name_ref, name) in self.ctx.func.params.user_named_funcs().iter() {
+                println!(
+                    "; verif-ext {} {} = u{}:{}",
+                    mangled_name, name_ref, name.namespace, name.index
+                );
+            }
+        }
+
         if self.verbosity.include_disasm(is_mod) {
             self.ctx.want_disasm = true;
         }
